@@ -115,8 +115,12 @@ impl Ev {
     pub fn ok(&self) -> bool {
         self.ret >= 0
     }
+    /// the call never returned (process ended inside it)
+    pub fn unfinished(&self) -> bool {
+        self.ret == i64::MIN
+    }
     pub fn errno(&self) -> i32 {
-        if self.ret < 0 {
+        if self.ret < 0 && self.ret > -4096 {
             (-self.ret) as i32
         } else {
             0
@@ -965,6 +969,11 @@ impl Sup {
                     sys = Sys::Fiemap;
                 }
             }
+            if sys == Sys::Close {
+                // drop the mapping at *entry*: once close() runs, another thread's open() may be handed the
+                // same number, and its exit stop can be reported before this call's exit stop
+                self.fds.remove(&((a[0] as i32) as i64));
+            }
             let interesting = self.interesting(&path);
             if sys == Sys::Other && interesting {
                 self.unknown += 1;
@@ -1093,9 +1102,6 @@ impl Sup {
                             } else {
                                 self.fds.insert(ret, FdInfo { path: b"/?".to_vec() });
                             }
-                        }
-                        Sys::Close => {
-                            self.fds.remove(&((a[0] as i32) as i64));
                         }
                         Sys::Dup => {
                             if let Some(fi) = self.fds.get(&((a[0] as i32) as i64)).cloned() {
